@@ -11,6 +11,7 @@ expanded by MCNP's definition, written in c12_gen.spec_expand) against the set
 of VOLU ids of the written file and the NOTE line on stdout.'''
 import json
 import random
+import re
 
 import common
 import impl
@@ -23,7 +24,8 @@ THEOREMS = ['C12_expand_shorthand', 'C12_interpolates_evenly_spaced',
             'C12_importance_missing_refused', 'C12_skipped_iff_zero',
             'C12_converted_iff_nonzero', 'C12_data_card_max_zero',
             'C12_cell_card_max_zero', 'C12_chain_max_zero',
-            'C12_conv_keys_not_skipped', 'C12_like_but_imp_refuted',
+            'C12_conv_keys_not_skipped', 'C12_written_volumes',
+            'C12_like_but_imp_refuted',
             'C12_nonu_refuted']
 TRUSTED = [
     'hand-written model coq/C12/Model.v + Text.v (modelled, tied by '
@@ -66,6 +68,17 @@ HEADER = g.HEADER
 # ---------------------------------------------------------------------------
 # expand_data_card
 # ---------------------------------------------------------------------------
+
+def run_cases(*args, **kwargs):
+    '''common.run_case_files, run again when a coqc process was killed by a
+    signal from outside (rc < 0: other jobs on the machine); genuine errors
+    (rc = 1) and disagreements are returned as they are.'''
+    for _ in range(3):
+        bad, errs = common.run_case_files(*args, **kwargs)
+        if not any(re.search(r'rc=-\d+', e.split('\n', 1)[0]) for e in errs):
+            break
+    return bad, errs
+
 
 def impl_expand(tokens, expected):
     from MIP.mip.datacard import expand_data_card
@@ -141,7 +154,7 @@ def expand_ties(res, rng, n_valid, n_bad):
         res.count('expand-fault:' + str(fault))
         res.count('expand-impl:' + (out[1] if out[0] == 'err' else 'ok'))
     res.sample({'expand_tokens': meta[0][0], 'impl': meta[0][3]})
-    bad, errs = common.run_case_files(
+    bad, errs = run_cases(
         'c12_expand', HEADER,
         'tables * list string * option Z * expand_out', 'check_expand', cases)
     res.obligation(f'tie:expand ({len(cases)} token lists: Model.expand = '
@@ -669,7 +682,7 @@ def parse_ties(res, rng, n_valid, n_bad):
     res.sample({'deck': meta[n_valid][1], 'fault': meta[n_valid][0]['fault'],
                 'impl': meta[n_valid][3][:3]
                 if meta[n_valid][3][0] == 'err' else 'ok'})
-    bad, errs = common.run_case_files('c12_parse', HEADER, 'pcase',
+    bad, errs = run_cases('c12_parse', HEADER, 'pcase',
                                       'check_parse', cases, chunk=100)
     res.obligation(f'tie:parse ({len(cases)} decks: Model.parse_cells = '
                    'ParseMCNPCell.parse, per cell importance/universe/'
@@ -725,23 +738,28 @@ def conversion_sweep(res, rng, n_decks, n_guard):
                 # model order: the order of the cell dictionary
                 order = [k for k, _ in result[1]]
                 volu = [k for k in order if k in t4.volumes and k in ids]
+                note = g.note_list(conv.stdout) \
+                    if g.NOTE_RE.search(conv.stdout) else None
                 cases.append(cpair(g.c_pcase(deck, (), result),
-                                   clist(cz(k) for k in volu)))
+                                   clist(cz(k) for k in volu),
+                                   copt(note, lambda l: clist(cz(k)
+                                                              for k in l))))
                 meta.append((deck, text))
     if meta:
         res.sample({'deck': meta[0][1],
                     'abstract': [(c['id'], c['values'])
                                  for c in meta[0][0]['cells']]})
-    bad, errs = common.run_case_files('c12_conv', HEADER, 'pcase * list Z',
+    bad, errs = run_cases('c12_conv', HEADER,
+                                      'pcase * list Z * option (list Z)',
                                       'check_conv', cases, chunk=100)
-    res.obligation(f'tie:conv ({len(cases)} conversions: Model.conv_keys = '
-                   'VOLU ids of the written file)', not bad and not errs,
+    res.obligation(f'tie:conv ({len(cases)} conversions: Model.written_ids = '
+                   'VOLU ids of the written file, Model.note = NOTE list)', not bad and not errs,
                    f'{len(bad)} disagreements {errs[:1]}')
     for idx in bad[:10]:
         deck, text = meta[idx]
         res.violation('correspondence',
-                      'VOLU ids of the written file differ from '
-                      'Model.conv_keys', {'input': {'deck': text},
+                      'VOLU ids of the written file / NOTE list differ '
+                      'from Model.written_ids / Model.note', {'input': {'deck': text},
                                           'theorem_or_correspondence':
                                           'tie:conv'}, found_input=False)
     if errs:
@@ -768,9 +786,9 @@ def run(res, tier, seed, proofs_ok):
     witnesses(res)
     corpus(res)
     all_zero_deck(res)
-    expand_ties(res, rng, 400 if quick else 4000, 300 if quick else 3000)
-    parse_ties(res, rng, 350 if quick else 3500, 250 if quick else 2000)
-    conversion_sweep(res, rng, 300 if quick else 3000, 40 if quick else 300)
+    expand_ties(res, rng, 300 if quick else 4000, 200 if quick else 3000)
+    parse_ties(res, rng, 300 if quick else 3000, 200 if quick else 1500)
+    conversion_sweep(res, rng, 250 if quick else 2500, 40 if quick else 250)
 
 
 def replay(path):
